@@ -131,6 +131,12 @@ def detect2dump(data, **kwargs):
             type = "opm"
     elif isinstance(data, Iterable) and all(isinstance(x, Measure) for x in data):
         type = "tdm"
+    elif isinstance(data, (list, tuple)) and all(
+        isinstance(x, Iterable) and all(isinstance(y, Measure) for y in x)
+        for x in data
+    ):
+        # list of MeasureSet, as given by the reading of a multi-segments TDM
+        type = "tdm"
     else:
         raise TypeError("Unknown object type")
 
